@@ -70,6 +70,8 @@ type Lifter struct {
 	// byte writer that fills the length prefix in last: `at := 4` leaves a
 	// hole, iohelp.WriteUint32Bytes(buf, uint32(at-K)) directly before a
 	// `return at` fills it with (what that return reports) - K
+	// set by lin: a product involving a wire value was computed in a narrow type
+	narrowMul token.Pos
 	bwHole    bool
 	bwPatched bool
 	bwPatchK  []int
@@ -227,6 +229,19 @@ func (l *Lifter) lin(e ast.Expr) (Lin, bool) {
 		case token.SUB:
 			return a.Sub(b), true
 		case token.MUL:
+			// a product with a value taken from the wire, computed in an integer
+			// narrower than 64 bits, wraps for large values: as a bound it
+			// proves nothing (noted for the caller, the form is still read)
+			if !(a.IsConst() && b.IsConst()) {
+				if t := l.Info.TypeOf(x); t != nil {
+					if bt, ok := t.Underlying().(*types.Basic); ok {
+						switch bt.Kind() {
+						case types.Uint32, types.Int32, types.Uint16, types.Int16, types.Uint8, types.Int8:
+							l.narrowMul = x.Pos()
+						}
+					}
+				}
+			}
 			if a.IsConst() {
 				return b.Scale(a.C), true
 			}
